@@ -585,6 +585,5 @@ example : ArrayDomain ⟨true, 64, 0⟩ ⟨1, 100⟩ ∧
     (⟨true, 64, 0⟩ : Fmt).maxV < truncScaled 1 (100 + 0) :=
   ⟨⟨by decide, by decide, by decide, by decide +kernel, by decide⟩, by decide +kernel⟩
 
-end Rig.C16
 
 end Rig.C16
